@@ -696,8 +696,8 @@ pub struct CycleCase {
     pub cycles: usize,
     /// the client resets (SO_LINGER 0 is not available here: it simply drops mid-message)
     pub mid_message: bool,
-    /// `monitor()` is called before the bind and the receiver kept (some back ends do extra
-    /// per-peer work only then)
+    /// `monitor()` is called before the bind (some back ends do extra per-peer work only
+    /// then); its receiver is kept, or - with `mid_message` - dropped at once
     #[serde(default)]
     pub monitor: bool,
 }
@@ -716,7 +716,19 @@ pub fn cycle_outcome(c: &CycleCase) -> Outcome {
             let who = kind.name();
             let mut f: Vec<Failure> = vec![];
             let mut s = crate::sim::AnySocket::new(kind, None);
-            let _monitor_rx = if c.monitor { Some(realnet::sock_monitor(&mut s)) } else { None };
+            // with `mid_message` the monitor's receiver is dropped at once (events can no longer
+            // be delivered), otherwise it is kept
+            let _monitor_rx = if c.monitor {
+                let rx = realnet::sock_monitor(&mut s);
+                if c.mid_message {
+                    drop(rx);
+                    None
+                } else {
+                    Some(rx)
+                }
+            } else {
+                None
+            };
             let ep = match realnet::sock_bind(&mut s, &c.transport.bind_text()).await {
                 Ok(e) => e.to_string(),
                 Err(e) => {
